@@ -38,3 +38,25 @@ Theorem C09_refuted :
   base_gain "CSliceBox<T>" = true /\ base_gain "CArc<T>" = true /\ base_gain "CArcSome<T>" = true.
 Proof. vm_compute. repeat split. Qed.
 Print Assumptions C09_refuted.
+
+(* contents: where the compiler's structural rule applies (an ADT whose own fields hold no raw pointer), an explicit unsafe impl never grants
+   Send or Sync to an instantiation whose fields do not have it — a container, object or group is never more thread-safe than what it holds
+   (instance handle, context AND return scratch space), whatever explicit impls the source declares *)
+Theorem C09_contents : overreach env = [].
+Proof. vm_compute. reflexivity. Qed.
+Print Assumptions C09_contents.
+Theorem C09_contents_spec : forall a rho m bs, In a env -> existsb has_ptr (a_fields a) = false -> a_fields a <> [] ->
+  In rho (assignments (a_nparams a)) -> (match m with MSend => a_send a | MSync => a_sync a end) = Some bs ->
+  grants bs rho = true -> structural env a rho m = true.
+Proof.
+  intros a rho m bs Ha Hp Hf Hr Hi Hg.
+  destruct (structural env a rho m) eqn:S; [reflexivity|exfalso].
+  assert (X : In (a_name a, rho, m) (overreach env)).
+  { unfold overreach. apply in_flat_map. exists a. split; [exact Ha|]. unfold overreach_of. rewrite Hp.
+    destruct (a_fields a) as [|f fs] eqn:F; [congruence|]. cbn [List.length Nat.eqb orb].
+    apply in_flat_map. exists rho. split; [exact Hr|]. apply in_flat_map. exists m. split; [destruct m; cbn; auto|].
+    rewrite Hi, Hg. rewrite <- F in *. rewrite S. cbn. left. reflexivity. }
+  rewrite C09_contents in X. exact X.
+Qed.
+Print Assumptions C09_contents_spec.
+
